@@ -992,7 +992,7 @@ Qed.
 (* past the entry checks, [fm] is the pass loop started from a state satisfying [pinv] *)
 Lemma fm_unfold cfg fuel g ws p0 orc : fm_contract g ws p0 -> p0 <> [] ->
   (exists e, fm cfg fuel g ws p0 orc = Err e)
-  \/ fm cfg fuel g ws p0 orc = Panic 7
+  \/ (fm cfg fuel g ws p0 orc = Panic 7 /\ fm_cap (fm_max_imb cfg) (load ws p0 0, load ws p0 1) = None)
   \/ exists cap mpg,
        fm_cap (fm_max_imb cfg) (load ws p0 0, load ws p0 1) = Some cap /\
        length ws = length p0 /\ 0 <= mpg /\ (forall v, row_weight (rowof g v) <= mpg) /\
@@ -1005,7 +1005,7 @@ Proof.
   destruct (Nat.eqb_spec (length p0) (length g)) as [E2|E2]; cbn [negb]; [|left; eauto].
   destruct p0 as [|x0 p0']; [congruence|]. set (p0 := x0 :: p0') in *.
   destruct (existsb (fun x => (1 <? x)%N) p0) eqn:E3; [left; eauto|].
-  destruct (fm_cap (fm_max_imb cfg) (load ws p0 0, load ws p0 1)) as [cap|] eqn:Ec; [|right; left; reflexivity].
+  destruct (fm_cap (fm_max_imb cfg) (load ws p0 0, load ws p0 1)) as [cap|] eqn:Ec; [|right; left; split; reflexivity].
   destruct (max_gain g) as [mpg|] eqn:Em.
   2:{ destruct g; [cbn in E2; discriminate|discriminate]. }
   destruct (max_gain_spec g mpg Hnn Em) as [M0 M1].
@@ -1067,7 +1067,7 @@ Proof.
     + destruct g as [|? ?]; cbn in H; [|discriminate]. destruct orc; inversion H; subst.
       repeat split; auto; try constructor; try (intros; cbn; lia); try (intros; constructor).
     + discriminate.
-  - destruct (fm_unfold cfg fuel g ws (x0 :: p0') orc C ltac:(discriminate)) as [[e E]|[E|[cap' [mpg [Ec [Lw [M0 [M1 [E Q]]]]]]]]];
+  - destruct (fm_unfold cfg fuel g ws (x0 :: p0') orc C ltac:(discriminate)) as [[e E]|[[E Ec0]|[cap' [mpg [Ec [Lw [M0 [M1 [E Q]]]]]]]]];
       try congruence.
     rewrite Hcap in Ec. inversion Ec; subst cap'. rewrite E in H.
     destruct C as [Hwf [Hso [Hsy [Hns [Hnn Hwp]]]]].
@@ -1088,7 +1088,7 @@ Theorem fm_cut_tracked cfg fuel g ws p0 orc : fm_contract g ws p0 -> fm cfg fuel
 Proof.
   intros C. destruct p0 as [|x0 p0'].
   - unfold fm. destruct (negb _); [discriminate|]. destruct (negb _); [discriminate|]. destruct orc; discriminate.
-  - destruct (fm_unfold cfg fuel g ws (x0 :: p0') orc C ltac:(discriminate)) as [[e E]|[E|[cap [mpg [Ec [Lw [M0 [M1 [E Q]]]]]]]]];
+  - destruct (fm_unfold cfg fuel g ws (x0 :: p0') orc C ltac:(discriminate)) as [[e E]|[[E Ec0]|[cap [mpg [Ec [Lw [M0 [M1 [E Q]]]]]]]]];
       try (rewrite E; discriminate).
     rewrite E. destruct C as [Hwf [Hso [Hsy [Hns [Hnn Hwp]]]]].
     apply (fm_passes_no6 cfg g ws (length (x0 :: p0')) mpg cap (x0 :: p0') Hwf Hsy Hns Hnn Hso Lw Hwp M1 eq_refl).
@@ -1101,7 +1101,7 @@ Theorem fm_terminates cfg fuel g ws p0 orc : fm_contract g ws p0 -> (fm_fuel g p
 Proof.
   intros C Hf. destruct p0 as [|x0 p0'].
   - unfold fm. destruct (negb _); [discriminate|]. destruct (negb _); [discriminate|]. destruct orc; discriminate.
-  - destruct (fm_unfold cfg fuel g ws (x0 :: p0') orc C ltac:(discriminate)) as [[e E]|[E|[cap [mpg [Ec [Lw [M0 [M1 [E Q]]]]]]]]];
+  - destruct (fm_unfold cfg fuel g ws (x0 :: p0') orc C ltac:(discriminate)) as [[e E]|[[E Ec0]|[cap [mpg [Ec [Lw [M0 [M1 [E Q]]]]]]]]];
       try (rewrite E; discriminate).
     rewrite E. destruct C as [Hwf [Hso [Hsy [Hns [Hnn Hwp]]]]].
     apply (fm_passes_terminates cfg g ws (length (x0 :: p0')) mpg cap (x0 :: p0') Hwf Hsy Hns Hnn Hso Lw Hwp M1 eq_refl).
@@ -1120,4 +1120,150 @@ Proof.
   assert (T : forallb (fun x => (x <=? 1)%N) p = true <-> two_way p).
   { unfold two_way. rewrite forallb_forall, Forall_forall. split; intros H x Hx; apply N.leb_le; auto. }
   rewrite T. tauto.
+Qed.
+
+(* ============================ every state an execution of a pass goes through *)
+
+Definition with_nbad (st : fm_st) (x : N) : fm_st :=
+  {| s_p := s_p st; s_pw := s_pw st; s_v2g := s_v2g st; s_g2v := s_g2v st; s_cur := s_cur st;
+     s_best := s_best st; s_bestmove := s_bestmove st; s_nbad := x; s_hist := s_hist st |}.
+
+(* states reachable from the pass start by moves the code may choose (any oracle) *)
+Inductive pass_reach (dbg : bool) (g : graph) (ws : list Z) (mpg cap : Z) (st0 : fm_st) : fm_st -> Prop :=
+| pr_init : pass_reach dbg g ws mpg cap st0 st0
+| pr_move st x v gn mint gv st' :
+    pass_reach dbg g ws mpg cap st0 st ->
+    choice_ok ws st mpg cap gn mint v gv = true ->
+    do_move dbg g ws mpg (with_nbad st x) (length (s_hist st)) v gn = Ok st' ->
+    pass_reach dbg g ws mpg cap st0 st'.
+
+Lemma fm_moves_reach cfg g ws mpg cap st0 : forall fuel mn st orc st',
+  pass_reach (fm_dbg cfg) g ws mpg cap st0 st -> length (s_hist st) = mn ->
+  fm_moves cfg g ws mpg cap fuel mn st orc = Ok (MvOk st') ->
+  pass_reach (fm_dbg cfg) g ws mpg cap st0 st'.
+Proof.
+  induction fuel as [|f IH]; intros mn st orc st' R Hmn H; cbn [fm_moves] in H; [discriminate|].
+  assert (Stop : Ok (match orc with [] => MvOk st | _ :: _ => MvBad 3 end) = Ok (MvOk st') ->
+                 pass_reach (fm_dbg cfg) g ws mpg cap st0 st').
+  { intros E. destruct orc; inversion E; subst. exact R. }
+  destruct (match fm_max_moves cfg with Some m => (m <=? N.of_nat mn)%N | None => false end); [auto|].
+  destruct (find_top ws (s_p st) (s_pw st) cap (buckets_desc mpg (s_g2v st))) as [[[gn mint]|]|]; [|auto|discriminate].
+  destruct ((gn <=? 0) && (fm_max_bad cfg <=? s_nbad st)%N); [auto|].
+  destruct orc as [|[v gv] orc']; [discriminate|].
+  destruct (choice_ok ws st mpg cap gn mint v gv) eqn:Hc; [|discriminate].
+  match type of H with context [do_move _ _ _ _ ?s _ _ _] => change s with (with_nbad st (if gn <=? 0 then (s_nbad st + 1)%N else 0%N)) in H end.
+  destruct (do_move (fm_dbg cfg) g ws mpg _ mn v gn) as [st2| | |] eqn:Ed; try discriminate.
+  assert (L2 : length (s_hist st2) = S mn).
+  { revert Ed. unfold do_move. cbn [with_nbad s_p s_pw s_v2g s_g2v s_cur s_best s_bestmove s_hist].
+    repeat match goal with
+           | |- context [match ?x with _ => _ end] => destruct x
+           | |- context [if ?x then _ else _] => destruct x
+           end; intros E; inversion E; subst; cbn [s_hist]; rewrite app_length; cbn [length]; lia. }
+  eapply IH; [|exact L2|exact H].
+  rewrite <- Hmn in Ed. eapply pr_move; eauto.
+Qed.
+
+Section Reach.
+Variables (dbg : bool) (g : graph) (ws : list Z) (n : nat) (mpg cap : Z) (p_in pstart : list N) (best0 : Z).
+Hypothesis Hwf : wf_graph g n.
+Hypothesis Hsym : symmetric g.
+Hypothesis Hnsl : no_self_loop g.
+Hypothesis Hnn : nonneg_edges g.
+Hypothesis Hws : length ws = n.
+Hypothesis Hwpos : Forall (fun w => 0 <= w) ws.
+Hypothesis Hmpg0 : 0 <= mpg.
+Hypothesis Hmpg : forall v, row_weight (rowof g v) <= mpg.
+Hypothesis Hps : length pstart = n.
+Variable st0 : fm_st.
+Hypothesis I0 : inv g ws n mpg cap p_in pstart best0 st0.
+
+Lemma reach_inv st : pass_reach dbg g ws mpg cap st0 st -> inv g ws n mpg cap p_in pstart best0 st.
+Proof.
+  induction 1 as [|st x v gn mint gv st' R IH Hc Ed]; [exact I0|].
+  assert (I1 : inv g ws n mpg cap p_in pstart best0 (with_nbad st x)) by (apply inv_set_nbad; exact IH).
+  assert (Hc1 : choice_ok ws (with_nbad st x) mpg cap gn mint v gv = true) by exact Hc.
+  destruct (do_move_inv g ws n mpg cap Hwf Hsym Hnsl Hws Hwpos p_in pstart best0 Hps dbg (with_nbad st x)
+              (length (s_hist st)) v gn mint gv st' I1 eq_refl Hc1 Ed) as [I2 _].
+  exact I2.
+Qed.
+
+(* the stored gain of every free vertex is its true gain and indexes the table in range;
+   a vertex sits only in the bucket labelled with its gain *)
+Lemma reach_gain_invariant st : pass_reach dbg g ws mpg cap st0 st ->
+  (forall v gv, nth_opt (s_v2g st) v = Some (Some gv) ->
+     gv = row_gain (pfun (s_p st)) v (rowof g v)
+     /\ exists i, tbl_idx mpg gv = Some i /\ (i < length (s_g2v st))%nat)
+  /\ (forall i v, In v (nth i (s_g2v st) []) -> nth_opt (s_v2g st) v = Some (Some (Z.of_nat i - mpg))).
+Proof.
+  intros R. pose proof (reach_inv st R) as I. split; [|apply (i_bucket _ _ _ _ _ _ _ _ _ I)].
+  intros v gv Hv. pose proof (i_gain _ _ _ _ _ _ _ _ _ I v gv Hv) as Eg. split; [exact Eg|].
+  pose proof (row_gain_bound (pfun (s_p st)) v (rowof g v) (rowof_nonneg g v Hnn)) as B.
+  pose proof (Hmpg v) as M. rewrite <- Eg in B.
+  exists (Z.to_nat (gv + mpg)). split; [apply tbl_idx_ok; lia|].
+  rewrite (i_tbl_len _ _ _ _ _ _ _ _ _ I). unfold tlen. lia.
+Qed.
+
+(* current_edge_cut is the cut of the current partition; part_weights are its loads *)
+Lemma reach_cut_tracked st : pass_reach dbg g ws mpg cap st0 st ->
+  s_cur st = edge_cut g (s_p st) /\ s_pw st = (load ws (s_p st) 0, load ws (s_p st) 1).
+Proof. intros R. pose proof (reach_inv st R) as I. split; [apply (i_cur _ _ _ _ _ _ _ _ _ I)|apply (i_pw _ _ _ _ _ _ _ _ _ I)]. Qed.
+
+(* the cap holds at every history point *)
+Lemma reach_cap st : pass_reach dbg g ws mpg cap st0 st ->
+  forall q, (q <= 1)%N -> load ws (s_p st) q <= Z.max (load ws p_in q) cap.
+Proof. intros R. pose proof (reach_inv st R) as I. apply (i_cap _ _ _ _ _ _ _ _ _ I). Qed.
+End Reach.
+
+(* the state a pass starts from *)
+Definition pass_state0 (ws : list Z) (p : list N) (v2g : list (option Z)) (t : table) (best : Z) : fm_st :=
+  {| s_p := p; s_pw := (load ws p 0, load ws p 1); s_v2g := v2g; s_g2v := t; s_cur := best; s_best := best;
+     s_bestmove := None; s_nbad := 0%N; s_hist := [] |}.
+
+(* hypotheses shared by the three statements below: the contract, the table size, a pass start *)
+Definition pass_setting (g : graph) (ws : list Z) (mpg cap : Z) (p_in p : list N)
+           (v2g : list (option Z)) (t : table) : Prop :=
+  fm_contract g ws p /\ length ws = length p /\ two_way p
+  /\ 0 <= mpg /\ (forall v, row_weight (rowof g v) <= mpg)
+  /\ (forall q, (q <= 1)%N -> load ws p q <= Z.max (load ws p_in q) cap)
+  /\ init_tables p mpg 0 g p (repeat [] (Z.to_nat (2 * mpg + 1))) = Some (v2g, t).
+
+Lemma pass_setting_inv g ws mpg cap p_in p v2g t : pass_setting g ws mpg cap p_in p v2g t ->
+  inv g ws (length p) mpg cap p_in p (edge_cut g p) (pass_state0 ws p v2g t (edge_cut g p)).
+Proof.
+  intros [[Hwf [Hso [Hsy [Hns [Hnn Hwp]]]]] [Lw [T2 [M0 [M1 [C Hi]]]]]].
+  apply (pass_start g ws (length p) mpg cap Hwf Hsy Hns Hnn Hso Lw M1 p_in p (edge_cut g p) eq_refl p v2g t
+           eq_refl T2 C eq_refl eq_refl Hi).
+Qed.
+
+Theorem fm_gain_invariant dbg g ws mpg cap p_in p v2g t st :
+  pass_setting g ws mpg cap p_in p v2g t ->
+  pass_reach dbg g ws mpg cap (pass_state0 ws p v2g t (edge_cut g p)) st ->
+  (forall v gv, nth_opt (s_v2g st) v = Some (Some gv) ->
+     gv = row_gain (pfun (s_p st)) v (rowof g v)
+     /\ exists i, tbl_idx mpg gv = Some i /\ (i < length (s_g2v st))%nat)
+  /\ (forall i v, In v (nth i (s_g2v st) []) -> nth_opt (s_v2g st) v = Some (Some (Z.of_nat i - mpg))).
+Proof.
+  intros S R. pose proof (pass_setting_inv _ _ _ _ _ _ _ _ S) as I0.
+  destruct S as [[Hwf [Hso [Hsy [Hns [Hnn Hwp]]]]] [Lw [T2 [M0 [M1 [C Hi]]]]]].
+  exact (reach_gain_invariant dbg g ws (length p) mpg cap p_in p (edge_cut g p) Hwf Hsy Hns Hnn Lw Hwp M0 M1 eq_refl _ I0 st R).
+Qed.
+
+Theorem fm_cut_tracked_state dbg g ws mpg cap p_in p v2g t st :
+  pass_setting g ws mpg cap p_in p v2g t ->
+  pass_reach dbg g ws mpg cap (pass_state0 ws p v2g t (edge_cut g p)) st ->
+  s_cur st = edge_cut g (s_p st) /\ s_pw st = (load ws (s_p st) 0, load ws (s_p st) 1).
+Proof.
+  intros S R. pose proof (pass_setting_inv _ _ _ _ _ _ _ _ S) as I0.
+  destruct S as [[Hwf [Hso [Hsy [Hns [Hnn Hwp]]]]] [Lw [T2 [M0 [M1 [C Hi]]]]]].
+  exact (reach_cut_tracked dbg g ws (length p) mpg cap p_in p (edge_cut g p) Hwf Hsy Hns Lw Hwp eq_refl _ I0 st R).
+Qed.
+
+Theorem fm_cap_every_point dbg g ws mpg cap p_in p v2g t st :
+  pass_setting g ws mpg cap p_in p v2g t ->
+  pass_reach dbg g ws mpg cap (pass_state0 ws p v2g t (edge_cut g p)) st ->
+  forall q, (q <= 1)%N -> load ws (s_p st) q <= Z.max (load ws p_in q) cap.
+Proof.
+  intros S R. pose proof (pass_setting_inv _ _ _ _ _ _ _ _ S) as I0.
+  destruct S as [[Hwf [Hso [Hsy [Hns [Hnn Hwp]]]]] [Lw [T2 [M0 [M1 [C Hi]]]]]].
+  exact (reach_cap dbg g ws (length p) mpg cap p_in p (edge_cut g p) Hwf Hsy Hns Lw Hwp eq_refl _ I0 st R).
 Qed.
